@@ -102,11 +102,26 @@ for _p in ('dawgie.db.open', 'dawgie.db.close', 'dawgie.db.archive', 'dawgie.pl.
     W.externs[_p] = Extern(drop=True)
 W.externs['dawgie.db.reopen'] = Extern(ret=BOOL)
 
+W.declare_global('ghost.told_to_leave', ListSet(HAND))     # ghost: the idle workers notify_all saw (pipeline inactive: they are told to leave)
+
+
+def _told(ex, e):
+    ex._note_write('ghost.told_to_leave', e.lineno)
+    ex.st.glob['ghost.told_to_leave'] = ex.st.glob['dawgie.pl.farm._workers']
+    return None
+
+
+def _cleared(ex, e):
+    ex._note_write('dawgie.pl.farm._workers', e.lineno)
+    ex.st.glob['dawgie.pl.farm._workers'] = ListSet(HAND).empty()
+    return None
+
+
 ACTIVE, ENTERING, EXITING = [STATUS.const(x) for x in ('active', 'entering', 'exiting')]
 TR = 'FSM._FSM__transitioning'
 FRAME = ['dawgie.pl.farm.insights', 'FSM.state', TR, 'FSM._FSM__prior', 'FSM.priority', 'Event.flag', 'FSM.open_again', 'ghost.background', 'ghost.triggers_fired',
          'ghost.update_triggers', 'dawgie.pl.farm.ARCHIVE', 'ghost.pollers_started', 'FSM.crew_thread', 'FSM.doing_thread', 'FSM.todo_thread',
-         'dawgie.pl.farm._workers', 'Hand.ghost_sent', 'Transport.closed']
+         'dawgie.pl.farm._workers', 'Hand.ghost_sent', 'Transport.closed', 'ghost.told_to_leave']
 
 
 def fired(c):
@@ -268,7 +283,7 @@ class load(ContractBase):
     modifies = FRAME
     assumes = [fsm_distinct_events]
     raises = {'MachineError': lambda c: And(Not(c.old.f('FSM._FSM__doctest', c['self'])), c.old.f(TR, c['self']) != ACTIVE)}
-    externs = {'dawgie.pl.farm.notify_all': Extern(drop=True)}
+    externs = {'dawgie.pl.farm.notify_all': Extern(fn=lambda ex, a, k, e: _told(ex, e)), 'dawgie.pl.farm.clear': Extern(fn=lambda ex, a, k, e: _cleared(ex, e))}
 
     def requires(c):
         return dict(fresh_ghost(c), state=c.old.f('FSM.state', c['self']) == FSMSTATE.const('loading'))
@@ -279,6 +294,9 @@ class load(ContractBase):
         doc = c.old.f('FSM._FSM__doctest', s)
         return {'background-load-outstanding': Implies(Not(doc), And(c.cur.f(TR, s) == ENTERING, started(c, '_pipeline'), n == 0,
                                                                      c.cur.f('FSM.state', s) == FSMSTATE.const('loading'))),
+                # the waiting workers are told to leave (notify_all sees them) BEFORE the crew list is dropped (clear)
+                'waiting-workers-are-told-to-leave': Implies(Not(doc), And(c.cur.g('ghost.told_to_leave') == c.old.g('dawgie.pl.farm._workers'),
+                                                                           c.cur.g('dawgie.pl.farm._workers') == ListSet(HAND).empty())),
                 'nothing-else-yet': Implies(Not(doc), And(c.cur.g('dawgie.pl.farm.ARCHIVE') == c.old.g('dawgie.pl.farm.ARCHIVE'),
                                                           c.cur.f('FSM._FSM__prior', s) == c.old.f('FSM._FSM__prior', s),
                                                           c.cur.f('FSM.priority', s) == c.old.f('FSM.priority', s)))}
